@@ -187,7 +187,7 @@ def probe_expr(u, x):
     kd = kind_of(u)
     if kd in INTS:
         return "int(%s)" % x
-    if kd in ("string", "slice", "map", "array"):
+    if kd in ("string", "slice", "map"):
         return "len(%s)" % x
     if kd == "struct" and u["k"] == "struct" and u["fs"] and not u["fs"][0]["emb"] and kind_of(u["fs"][0]["t"]) in INTS:
         return "int(%s.%s)" % (x, field_name(u, 0))
@@ -580,41 +580,46 @@ def strip_chan_parens(s):
 
 
 def tight_typeargs(s):
-    """inside G[...]: struct { A T; B U } -> struct{A T; B U}, interface { M() int } -> interface{M() int}"""
-    res = []
-    i = 0
-    depth = 0
-    while i < len(s):
-        if s.startswith("G[", i):
-            depth += 1
-            res.append("G[")
-            i += 2
+    """llgo writes a struct literal inside the brackets of a generic instance with go/types' TypeString: no blanks
+    inside the braces, unexported field and method names without qualifier - for everything nested in that struct;
+    an interface literal that is not inside a struct literal keeps reflect's spelling"""
+    out = []
+    for inside, text in split_typeargs(s):
+        if not inside:
+            out.append(text)
             continue
-        ch = s[i]
-        if depth > 0:
-            if ch == "[":
-                depth += 1
-            elif ch == "]":
-                depth -= 1
+        res = []
+        stack = []
+        i = 0
+        while i < len(text):
+            in_struct = "S" in stack
+            if text.startswith("struct {}", i):
+                res.append("struct{}")
+                i += 9
+            elif text.startswith("interface {}", i):
+                res.append("interface{}" if in_struct else "interface {}")
+                i += 12
+            elif text.startswith("struct { ", i):
+                res.append("struct{")
+                stack.append("S")
+                i += 9
+            elif text.startswith("interface { ", i):
+                res.append("interface{" if in_struct else "interface { ")
+                stack.append("i" if in_struct else "I")
+                i += 12
+            elif text.startswith(" }", i) and stack:
+                res.append(" }" if stack.pop() == "I" else "}")
+                i += 2
             else:
-                hit = False
-                for a, b in (("struct {}", "struct{}"), ("interface {}", "interface{}"), ("struct { ", "struct{"),
-                             ("interface { ", "interface{"), (" }", "}")):
-                    if s.startswith(a, i):
-                        res.append(b)
-                        i += len(a)
-                        hit = True
-                        break
-                if hit:
-                    continue
-                m = re.match(r"main\.([a-d] |m0\(\))", s[i:])     # unexported field / method names lose their qualifier
+                m = re.match(r"main\.([a-d] |m0\(\))", text[i:]) if in_struct else None
                 if m and res and res[-1][-1:] in ("{", " "):
                     res.append(m.group(1))
                     i += m.end()
-                    continue
-        res.append(ch)
-        i += 1
-    return "".join(res)
+                else:
+                    res.append(text[i])
+                    i += 1
+        out.append("".join(res))
+    return "".join(out)
 
 
 def contains(term, pred):
@@ -660,6 +665,8 @@ LINE_CLASSES = [
     ("struct-tag-in-type-string", 'str:struct_{_A_int_"t"_}', lambda q: True, strip_tags),
     ("chan-of-recv-chan-parens", "str:chan_(<-chan_int)", lambda q: True, strip_chan_parens),
     ("named-interface-pkgpath", "pkg:main.NIM1_Znone", lambda q: q == "pkg", lambda s: "" if s == "main" else s),
+    ("map-pointer-key-star", "str:map[*int]int", lambda q: True, lambda s: s.replace("map[*", "map[")),
+    ("named-pointer-extra-star", "str:main.NPintZnone", lambda q: True, lambda s: re.sub(r"main\.([Nn]P\w*)", r"*main.\1", s)),
     # only in programs without reflect.Value.Method/MethodByName: Type.Method(i).Type is a fresh func type
     ("method-type-identity", "mteq:main.NSXint__ZvMpM", lambda q: q == "mteq", lambda s: "false" if s == "true" else s),
 ]
